@@ -15,7 +15,7 @@ Record cstate := mkC {
   c_inst : list gstate;
   c_logged : list (nat * nentry) }.      (* every (integration, entry) some instance has written with nflog.Log *)
 
-Definition is_merge (e : ev) : bool := match e with ENflogMerge _ _ => true | _ => false end.
+Definition is_merge (e : ev) : bool := match e with ENflogMerge _ _ | ENflogLoad _ _ => true | _ => false end.
 
 (* the entry nflog.Log constructs for a log write at instant t *)
 Definition logged_entries (cfg : gcfg) (o : list out) : list (nat * nentry) :=
